@@ -135,15 +135,16 @@ def dstep (s : DState) (toks : List String) : DState × List String :=
     match unhex? h with
     | some bs => (s, [hex (Sha1.sha1 bs)])
     | none => (s, ["bad-op"])
-  | ["hs", h] =>
-    match unhex? h with
-    | some bs =>
-      match handshake Sha1.sha1 bs with
+  | "hs" :: h :: more =>
+    let ending := if more = ["closed"] then some HsEnd.closed else if more = [] then some HsEnd.timeout else none
+    match unhex? h, ending with
+    | some bs, some ending =>
+      match handshake Sha1.sha1 bs ending with
       | .fail => (s, ["hs fail resp=-"])
       | .ok resp b64 path _ =>
         let rest := match encodeHybi b64 (strBytes "RFB 003.008\n") with | some r => r | none => []
         (s, [s!"hs ok resp={hex resp} rest={hex rest} ws=1 b64={if b64 then 1 else 0} path={hex path}"])
-    | none => (s, ["bad-op"])
+    | _, _ => (s, ["bad-op"])
   | ["wx", b, l, sd] =>
     match l.toNat?, sd.toNat? with
     | some len, some seed =>
